@@ -60,6 +60,31 @@ pub struct Player {
     pub skip_obs: bool,
     pub cell_order: Vec<String>,
     pub u_probe_addr: BTreeSet<String>,
+    pub digest_on: bool,
+    pub digest_mutating_only: bool,
+    pub keep_raw: bool,
+    pub digest: String,
+    pub raw: Vec<String>,
+}
+
+/// canonical text of an answer: object keys sorted (serde_json maps are ordered), the self-reported block
+/// processing time zeroed - the only field allowed to differ between replicas
+pub fn normalise(v: &Value) -> String {
+    fn strip(v: &mut Value) {
+        match v {
+            Value::Object(o) => {
+                if o.contains_key("mineTimestamp") {
+                    o.insert("mineTimestamp".into(), json!("0x0"));
+                }
+                o.values_mut().for_each(strip);
+            }
+            Value::Array(a) => a.iter_mut().for_each(strip),
+            _ => {}
+        }
+    }
+    let mut c = v.clone();
+    strip(&mut c);
+    c.to_string()
 }
 
 fn hexs(b: &[u8]) -> String {
@@ -111,6 +136,11 @@ impl Player {
             skip_obs: false,
             cell_order: Vec::new(),
             u_probe_addr: BTreeSet::new(),
+            digest_on: false,
+            digest_mutating_only: false,
+            keep_raw: false,
+            digest: String::new(),
+            raw: Vec::new(),
         };
         for a in ["idx", "ctrl", "dead"] {
             p.u_addr.insert(a.to_string());
@@ -160,7 +190,7 @@ impl Player {
         let i = u64_of(&rc["transactionIndex"]).unwrap_or(0);
         self.u_idx.insert((b, i));
         let out = if self.traces_on {
-            let tr = self.inst.call("debug_traceTransaction", json!([rc["transactionHash"]])).ok().cloned().unwrap_or(Value::Null);
+            let tr = self.rpc("debug_traceTransaction", json!([rc["transactionHash"]])).ok().cloned().unwrap_or(Value::Null);
             self.abs_output(tr["output"].as_str().unwrap_or("0x"))
         } else {
             "off".to_string()
@@ -211,7 +241,7 @@ impl Player {
 
     fn do_ethcall(&mut self, step: &Value) -> Value {
         let (obj, abs) = self.eth_call_obj(step);
-        let r = self.inst.call("eth_call", json!([obj]));
+        let r = self.rpc("eth_call", json!([obj]));
         let (ok, out) = match &r {
             Outcome::Ok(v) => (true, self.abs_output(v.as_str().unwrap_or("0x"))),
             Outcome::Err { data, .. } => (false, self.abs_output(data.as_ref().and_then(|d| d.as_str()).unwrap_or("0x"))),
@@ -222,7 +252,7 @@ impl Player {
 
     /// eth_getLogs with an abstract filter; no projection is attached (reads are covered by C10)
     fn do_getlogs(&mut self, step: &Value) -> Value {
-        let h = self.inst.call("eth_blockNumber", json!([])).ok().and_then(u64_of).unwrap_or(0) as i64;
+        let h = self.rpc("eth_blockNumber", json!([])).ok().and_then(u64_of).unwrap_or(0) as i64;
         let fb = step["fb"].as_i64().unwrap_or(-1);
         let tb = step["tb"].as_i64().unwrap_or(-1);
         let from = if fb < 0 { -1 } else { (h - fb).max(0) };
@@ -255,7 +285,7 @@ impl Player {
         if step["topics"].is_array() {
             f.insert("topics".into(), Value::Array(topics));
         }
-        let r = self.inst.call("eth_getLogs", json!([Value::Object(f)]));
+        let r = self.rpc("eth_getLogs", json!([Value::Object(f)]));
         let mut logs = Vec::new();
         if let Some(list) = r.ok().and_then(|v| v.as_array().cloned()) {
             for l in list {
@@ -271,7 +301,7 @@ impl Player {
 
     fn do_estimate(&mut self, step: &Value) -> Value {
         let (obj, abs) = self.eth_call_obj(step);
-        let r = self.inst.call("eth_estimateGas", json!([obj]));
+        let r = self.rpc("eth_estimateGas", json!([obj]));
         let (ok, gas) = match &r {
             Outcome::Ok(v) => (true, u64_of(v).unwrap_or(0)),
             _ => (false, 0),
@@ -289,7 +319,7 @@ impl Player {
             abss.push(a);
         }
         let method = if step["estimate"].as_bool().unwrap_or(false) { "eth_estimateGasMany" } else { "eth_callMany" };
-        let r = self.inst.call(method, json!([objs]));
+        let r = self.rpc(method, json!([objs]));
         let (ok, outs) = match &r {
             Outcome::Ok(v) => (true, v.as_array().cloned().unwrap_or_default().iter().map(|x| json!(self.abs_output(x.as_str().unwrap_or("0x")))).collect::<Vec<_>>()),
             _ => (false, vec![]),
@@ -448,25 +478,25 @@ impl Player {
             "reset" => json!({"ev": "Reset", "res": "ok"}),
             "init" => self.do_init(step),
             "mine" => {
-                let r = self.inst.call("brc20_mine", json!([step["k"], step["ts"]]));
+                let r = self.rpc("brc20_mine", json!([step["k"], step["ts"]]));
                 json!({"ev": "Mine", "k": step["k"], "ts": step["ts"], "res": r.res(), "err": r.err_text()})
             }
             "tx" => self.do_tx(step),
             "transact" => self.do_transact(step),
             "finalise" => {
                 let h = names::hash_of_token(step["hash"].as_str().unwrap_or("zero"), 0);
-                let r = self.inst.call("brc20_finaliseBlock", json!([step["ts"], hexs(h.as_slice()), step["count"]]));
+                let r = self.rpc("brc20_finaliseBlock", json!([step["ts"], hexs(h.as_slice()), step["count"]]));
                 if r.is_ok() {
                     self.mid_block = false;
                 }
                 json!({"ev": "Finalise", "ts": step["ts"], "hash": step["hash"], "count": step["count"], "res": r.res(), "err": r.err_text()})
             }
             "commit" => {
-                let r = self.inst.call("brc20_commitToDatabase", json!([]));
+                let r = self.rpc("brc20_commitToDatabase", json!([]));
                 json!({"ev": "Commit", "res": r.res(), "err": r.err_text()})
             }
             "clear" => {
-                let r = self.inst.call("brc20_clearCaches", json!([]));
+                let r = self.rpc("brc20_clearCaches", json!([]));
                 if r.is_ok() {
                     self.mid_block = false;
                 }
@@ -484,7 +514,7 @@ impl Player {
             "estimate" => self.do_estimate(step),
             "callmany" => self.do_callmany(step),
             "reorg" => {
-                let r = self.inst.call("brc20_reorg", json!([step["n"]]));
+                let r = self.rpc("brc20_reorg", json!([step["n"]]));
                 json!({"ev": "Reorg", "n": step["n"], "res": r.res(), "err": r.err_text()})
             }
             _ => json!({"ev": "Unknown", "res": "err"}),
@@ -498,13 +528,13 @@ impl Player {
 
     fn do_init(&mut self, step: &Value) -> Value {
         let h = names::hash_of_token(step["hash"].as_str().unwrap_or("zero"), 0);
-        let r = self.inst.call("brc20_initialise", json!([hexs(h.as_slice()), step["ts"], step["height"]]));
+        let r = self.rpc("brc20_initialise", json!([hexs(h.as_slice()), step["ts"], step["height"]]));
         // the receipt of the controller deployment is not returned; find the transaction of the genesis block
         let mut id = json!("NULL");
         let mut rc_abs = json!("NULL");
         if r.res() == "ok" || r.res() == "enverr" {
             let height = step["height"].as_u64().unwrap_or(0);
-            let b = self.inst.call("eth_getBlockByNumber", json!([format!("{}", height), false]));
+            let b = self.rpc("eth_getBlockByNumber", json!([format!("{}", height), false]));
             if let Some(b) = b.ok() {
                 if let Some(t) = b["transactions"].as_array().and_then(|a| a.first()) {
                     if let Some(h) = b256_of(t) {
@@ -512,7 +542,7 @@ impl Player {
                         self.u_tx.insert(tok.clone());
                         self.u_idx.insert((height, 0));
                         id = json!(tok);
-                        let rc = self.inst.call("eth_getTransactionReceipt", json!([t])).ok().cloned().unwrap_or(Value::Null);
+                        let rc = self.rpc("eth_getTransactionReceipt", json!([t])).ok().cloned().unwrap_or(Value::Null);
                         if rc.is_object() {
                             rc_abs = self.abs_receipt(&rc);
                         }
@@ -592,7 +622,7 @@ impl Player {
             }
             _ => ("brc20_call", json!({})),
         };
-        let r = self.inst.call(method, Value::Object(params));
+        let r = self.rpc(method, Value::Object(params));
         let mut ev = json!({"ev": "AddTx", "via": via, "tx": abs_tx, "insc": step["insc"], "idx": step["idx"],
                             "hash": step["hash"], "ts": step["ts"], "txid": step["txid"], "res": r.res(), "err": r.err_text(),
                             "rc": "NULL"});
@@ -601,7 +631,7 @@ impl Player {
                 self.mid_block = true;
                 let a = self.abs_receipt(rc);
                 // the receipt returned to the indexer is the one served by hash right away
-                let again = self.inst.call("eth_getTransactionReceipt", json!([rc["transactionHash"]]));
+                let again = self.rpc("eth_getTransactionReceipt", json!([rc["transactionHash"]]));
                 ev["returned_eq_served"] = json!(again.ok() == Some(rc));
                 ev["rc"] = a;
                 if abs_tx["ckind"] == json!("probe") {
@@ -681,20 +711,20 @@ impl Player {
         params.insert("inscription_byte_len".into(), json!(Self::gas_len(step)));
         params.insert("op_return_tx_id".into(), json!(hexs(txid.as_slice())));
         self.enc_fields(step, &raw, "raw_tx_data", "base64_raw_tx_data", &mut params);
-        let r = self.inst.call("brc20_transact", Value::Object(params));
+        let r = self.rpc("brc20_transact", Value::Object(params));
         let mut rcs = Vec::new();
         let mut served = true;
         if let Some(list) = r.ok().and_then(|v| v.as_array()) {
             for rc in list.clone() {
                 self.mid_block = true;
                 rcs.push(self.abs_receipt(&rc));
-                let again = self.inst.call("eth_getTransactionReceipt", json!([rc["transactionHash"]]));
+                let again = self.rpc("eth_getTransactionReceipt", json!([rc["transactionHash"]]));
                 served = served && again.ok() == Some(&rc);
             }
         }
         // the waiting set right after the call (pins the nondeterministic part of the drain in the reference machine)
         let mut pool_after = Vec::new();
-        let pc = self.inst.call("txpool_content", json!([])).ok().cloned().unwrap_or(Value::Null);
+        let pc = self.rpc("txpool_content", json!([])).ok().cloned().unwrap_or(Value::Null);
         if let Some(pm) = pc["pending"].as_object() {
             for (acct, m) in pm {
                 let an = self.names.name_of_json(&json!(acct));
@@ -712,7 +742,26 @@ impl Player {
     // the projection
 
     fn get(&mut self, method: &str, params: Value) -> Outcome {
-        self.inst.call(method, params)
+        self.rpc(method, params)
+    }
+
+    /// every request of the player goes through here; in replica mode the raw answers are digested
+    pub fn rpc(&mut self, method: &str, params: Value) -> Outcome {
+        let r = self.inst.call(method, params.clone());
+        if self.digest_on && (!self.digest_mutating_only || crate::methods::MUTATING.contains(&method)) {
+            let text = match &r {
+                Outcome::Ok(v) => format!("ok:{}", normalise(v)),
+                Outcome::Err { code, message, data } => format!("err:{}:{}:{}", code, message, data.as_ref().map(normalise).unwrap_or_default()),
+                Outcome::Panic(m) => format!("panic:{}", m),
+                Outcome::Timeout => "timeout".to_string(),
+            };
+            let line = format!("{} {} -> {}", method, params, text);
+            self.digest = sha256::digest(format!("{}\n{}", self.digest, line));
+            if self.keep_raw {
+                self.raw.push(line);
+            }
+        }
+        r
     }
 
     pub fn obs(&mut self) -> Value {
